@@ -20,7 +20,9 @@ import (
 //  1. a local variable that is defined once by a pure read expression which the inventory of its
 //     function does not list (a hoisted repeated expression) is replaced, at each use, by that
 //     expression, and its definition is dropped;
-//  2. `len(s) == 0` style tests of a string become `s == ""` / `s != ""`.
+//  2. `len(s) == 0` style tests of a string become `s == ""` / `s != ""`;
+//  3. a tagged switch over a tag the function's inventory does not list (an if-chain that was
+//     turned into `switch x { case a, b: }`) becomes the tagless `switch { case x == a || x == b: }`.
 func (p *Program) Normalise(b *Baseline) {
 	for _, pkg := range p.All {
 		n := &normaliser{p: p, pkg: pkg, info: pkg.TypesInfo, pure: map[*types.Func]int{}, base: b}
@@ -47,6 +49,21 @@ func (p *Program) Normalise(b *Baseline) {
 				}
 			}
 			n.canonLen(fd)
+			tags := b.Tags[q]
+			if !b.HasFunc(q) {
+				tags = nil
+				for fq, set := range b.Tags {
+					if strings.HasPrefix(fq, pkg.PkgPath+".") {
+						if tags == nil {
+							tags = map[string]bool{}
+						}
+						for k := range set {
+							tags[k] = true
+						}
+					}
+				}
+			}
+			n.canonSwitch(fd, tags)
 		}
 	}
 	sort.Strings(p.Substituted)
@@ -139,12 +156,35 @@ func (n *normaliser) lenOfString(e ast.Expr) ast.Expr {
 // substituteLocals performs one round of forward substitution in fd; reports whether anything changed.
 func (n *normaliser) substituteLocals(fd *ast.FuncDecl, q string, known map[string]bool) bool {
 	changed := false
+	// locals whose defining expression has a shape the inventory knows (same expression modulo the
+	// names of locals and fields), as many per shape as the inventory has and the exact keys leave over
+	renamedKnown := map[*ast.Ident]bool{}
+	if shapes := n.base.Shapes[q]; shapes != nil {
+		defs := localDefs(fd.Body)
+		exact := map[string]int{}
+		for _, def := range defs {
+			if known[exprKey(n.info, def.rhs)] {
+				exact[looseKey(n.info, def.rhs)]++
+			}
+		}
+		used := map[string]int{}
+		for _, def := range defs {
+			if known[exprKey(n.info, def.rhs)] {
+				continue
+			}
+			lk := looseKey(n.info, def.rhs)
+			if exact[lk]+used[lk] < shapes[lk] {
+				used[lk]++
+				renamedKnown[def.id] = true
+			}
+		}
+	}
 	for _, def := range localDefs(fd.Body) {
 		obj, _ := n.info.Defs[def.id].(*types.Var)
 		if obj == nil {
 			continue
 		}
-		if known[exprKey(n.info, def.rhs)] {
+		if known[exprKey(n.info, def.rhs)] || renamedKnown[def.id] {
 			continue
 		}
 		if !n.pureExpr(def.rhs, 0) || n.callsNewHelper(def.rhs) {
@@ -689,4 +729,51 @@ func (n *normaliser) callsNewHelper(e ast.Expr) bool {
 		return true
 	})
 	return found
+}
+
+// canonSwitch rewrites tagged switches with a tag unknown to the inventory into tagless form.
+func (n *normaliser) canonSwitch(fd *ast.FuncDecl, known map[string]bool) {
+	ast.Inspect(fd.Body, func(x ast.Node) bool {
+		sw, ok := x.(*ast.SwitchStmt)
+		if !ok || sw.Tag == nil {
+			return true
+		}
+		if known[exprKey(n.info, sw.Tag)] || !n.pureExpr(sw.Tag, 0) {
+			return true
+		}
+		// the tag is evaluated once per comparison after the rewrite: only variables and field reads
+		simple := true
+		ast.Inspect(sw.Tag, func(y ast.Node) bool {
+			if _, isCall := y.(*ast.CallExpr); isCall {
+				simple = false
+			}
+			return true
+		})
+		if !simple {
+			return true
+		}
+		boolT := types.TypeAndValue{Type: types.Typ[types.Bool]}
+		for _, cl := range sw.Body.List {
+			cc := cl.(*ast.CaseClause)
+			if cc.List == nil {
+				continue
+			}
+			var cond ast.Expr
+			for _, v := range cc.List {
+				eq := &ast.BinaryExpr{X: n.in.clone(sw.Tag, nil).(ast.Expr), Op: token.EQL, OpPos: v.Pos(), Y: v}
+				n.info.Types[eq] = boolT
+				if cond == nil {
+					cond = eq
+				} else {
+					or := &ast.BinaryExpr{X: cond, Op: token.LOR, OpPos: v.Pos(), Y: eq}
+					n.info.Types[or] = boolT
+					cond = or
+				}
+			}
+			cc.List = []ast.Expr{cond}
+		}
+		sw.Tag = nil
+		n.p.mutated = true
+		return true
+	})
 }
